@@ -17,8 +17,12 @@ def writes_since(w, i0):
     return [e for e in w.net.log[i0:] if e[1] in ("write", "write_fail", "write_after_loss")]
 
 
+JUDGED = set()
+
+
 def call_expect(w, gen, fn, label, sig, bad, supported, matcher, kind="ac-control", ext=False):
     """supported: True -> accepted, exactly one frame with the right meaning; False -> ValueError, zero bytes."""
+    JUDGED.add(label)
     i0 = len(w.net.log)
     rec, frames = cc.issue(w, fn)
     wr = writes_since(w, i0)
@@ -81,7 +85,9 @@ def ability_job(job):
             n += 1
             call_expect(w, gen, lambda: ac.set_power(pc), f"{tag}.set_power({pc.name})", f"at{gen}:set_power:{pc.name}", bad,
                         pc.name in pcs, lambda r: cc.match_ac_control(gen, r, cc.ac_intent(a, power=cc.PC[pc.name])))
-    return n, bad
+    k = len(JUDGED)
+    JUDGED.clear()
+    return n, bad, k
 
 
 def ability_jobs(gen, tier):
@@ -217,14 +223,16 @@ def values_job(job):
                                 f"at{gen}:timer-other-untouched", bad, True,
                                 lambda r: cc.match_timer_control(gen, r, 1, which, cc.timer_state(new), rep[other]), kind="timer-control")
                     # the console confirms nothing: the model keeps the last *reported* pair
-    return n, bad
+    k = len(JUDGED)
+    JUDGED.clear()
+    return n, bad, k
 
 
 def replay_input(rp):
     if rp["what"] == "ability":
-        n, bad = ability_job((rp["gen"], [tuple(map(tuple, c)) for c in rp["combos"]]))
+        n, bad, _k = ability_job((rp["gen"], [tuple(map(tuple, c)) for c in rp["combos"]]))
     else:
-        n, bad = values_job((rp["gen"], rp["part"]))
+        n, bad, _k = values_job((rp["gen"], rp["part"]))
     for sig, msg in bad:
         if sig == rp["sig"]:
             return msg
@@ -238,12 +246,14 @@ def run(tier, seed, part=None):
                        "at exact rounding ties either neighbour is accepted",
                        "AT5 limits for auto/dry/fan modes: heat pair, cool pair or union accepted"]
     total = 0
+    judged = 0
     for gen in (4, 5):
         jobs = ability_jobs(gen, tier)
         res = explorer.pool().map(ability_job, jobs, chunksize=4)
         nn = 0
-        for job, (n, bad) in zip(jobs, res):
+        for job, (n, bad, k) in zip(jobs, res):
             nn += n
+            judged += k
             for sig, msg in bad:
                 chk.violation(sig, msg, {"kind": "input", "module": "pvmc.props.c11", "what": "ability", "gen": gen,
                                          "combos": [list(map(list, c)) for c in job[1]], "sig": sig})
@@ -252,15 +262,16 @@ def run(tier, seed, part=None):
         total += nn
         vjobs = [(gen, p) for p in ("ac-setpoint", "zones", "timers")]
         res = explorer.pool().map(values_job, vjobs, chunksize=1)
-        for job, (n, bad) in zip(vjobs, res):
+        for job, (n, bad, k) in zip(vjobs, res):
             total += n
+            judged += k
             chk.parts.append({"scenario": f"at{gen}/{job[1]}", "calls": n})
             for sig, msg in bad:
                 chk.violation(sig, msg, {"kind": "input", "module": "pvmc.props.c11", "what": "values", "gen": gen, "part": job[1], "sig": sig})
     chk.samples += [{"call": "set_mode/set_fan_speed/set_power for every argument under every ability bitmap"},
                     {"call": "ac.set_target_temperature(t), t = -5.00..50.00 step 0.05, under every mode-dependent limit pair"},
                     {"call": "set/clear each quick timer for every reported (on, off) pair"}]
-    return chk.finish({"evaluations": total, "distinct_nontrivial": total, "exhaustive": True,
-                       "rule": "one evaluation = one public API call on a real initialised client; distinct by (ability bitmap or "
-                               "reported state, entity, call, argument); non-trivial = judged for refusal (ValueError and zero "
-                               "bytes) or for exactly one correctly shaped frame"})
+    return chk.finish({"evaluations": total, "distinct_nontrivial": judged, "exhaustive": True,
+                       "rule": "one evaluation = one public API call on a real initialised client; distinct_nontrivial = number of distinct "
+                               "(configuration, entity, call, argument) labels, counted with a set, that were judged either for refusal "
+                               "(ValueError and zero bytes) or for exactly one correctly shaped frame"})
